@@ -8,6 +8,13 @@ sandbox tree that contains pre-existing files and directories.  Per operation ou
 isolation / failed), the `_created` set before exit, the tree before exit and the tree after exit are
 compared with the Lean model (`Driver/C29.lean`).
 
+Names and spellings: file names are drawn per case from families in which one name is a proper STRING prefix
+of another or differs only in case (`a/ab/abc`, `out/output/out.txt`, `report/report.bak`, `dir/dir2`, `data/Data`)
+for pre-existing and created paths alike, and arguments are spelled the way real code spells them (`d/`, `d//x`,
+`d/./x`, `d/sub/../x`, relative to the working directory); the model normalises the spelling itself (`normSegs`)
+and decides whether the operating system resolves it like its normal form.  `_is_isolated` is probed directly on
+sibling names before exit and compared with the model's string walk (`isIsolatedStr`).
+
 Oracle (independent of the model): the tree after exit equals the tree before entry, path by path and
 content by content — exactly the property.
 
@@ -73,6 +80,49 @@ EXPECTED_PATCHES = {
 }
 
 
+class BadSpelling(RuntimeError):
+    """an ill-formed case (adapter error, never a verdict): a spelling that does not denote its argument"""
+
+
+#: name families: inside a family one name is a proper string prefix of another, or differs only in case
+FAMILIES = [
+    ["a", "ab", "abc"],
+    ["out", "output", "out.txt"],
+    ["report", "report.bak", "report.bak.1"],
+    ["dir", "dir2", "dir.d"],
+    ["d0", "d0x", "D0"],
+    ["f0", "f0~", "F0"],
+    ["n0", "n01", "N0"],
+    ["data", "Data", "DATA"],
+    ["x", "x y", "x.y"],
+    ["tmp", "tmp1", "tmpfile"],
+]
+
+
+def spelled(root: str, comps: list, segs, rel: bool) -> str:
+    """The path string handed to the code under test for the argument `comps` (components below root)."""
+    segs = comps if segs is None else segs
+    tail = "".join("/" + s for s in segs)
+    # a relative spelling always starts with "./": a leading empty segment must never yield an absolute path
+    return ("." + tail) if rel else (root + tail)
+
+
+def spelling_kinds(segs, rel) -> list:
+    out = []
+    if segs is not None:
+        if ".." in segs:
+            out.append("dotdot")
+        if "." in segs:
+            out.append("dot")
+        if "" in segs[:-1]:
+            out.append("dslash")
+        if segs and segs[-1] == "":
+            out.append("trailing")
+    if rel:
+        out.append("rel")
+    return out
+
+
 def text(data) -> str:
     return "".join(chr(97 + (n % 26)) for n in data)
 
@@ -126,16 +176,21 @@ def snapshot(root: str) -> list:
 class C29(PropertyCheck):
     prop_id = "C29"
     prop_modules = ["PynguinModel.Props.C29"]
-    extra_modules = ["PynguinModel.Model.FsIsolation"]
+    extra_modules = ["PynguinModel.Model.FsIsolation", "PynguinModel.Model.FsPathStr"]
     driver = "Driver/C29.lean"
     n_quick = 1500
     n_thorough = 30000
     n_search = 6000
-    rule = ("a case is a pre-existing tree + a sequence of 3–12 operations; non-trivial = distinct sequence of "
-            "(operation kind, outcome, did it name a pre-existing path) with at least one successful operation")
+    rule = ("a case is a pre-existing tree + a sequence of 3–12 operations with spelled arguments; non-trivial = "
+            "distinct sequence of (operation kind, outcome, did it name a pre-existing path, kinds of spelling) with at "
+            "least one successful operation")
     assumptions = [
         "paths are absolute, normalised and inside the sandbox; no symlinks, hard links, permissions, special files",
-        "single-threaded code under test; the process's working directory is the sandbox root",
+        "path components are real file names (non-empty, no separator, not '.'/'..'); arguments may be spelled with "
+        "'.', '..', doubled and trailing separators or relative to the working directory as long as the operating "
+        "system resolves the spelling like os.path.normpath (otherwise the case is judged by the oracle only)",
+        "single-threaded code under test; the process's working directory is the sandbox root and does not change "
+        "(the process-wide abspath memo of fs_isolation is emptied per case, as in a fresh process)",
         "os.open descriptors are used for one write and closed; dir_fd-relative calls of the code under test, "
         "Path.unlink(missing_ok=True), rmtree(ignore_errors=True), copytree (also as the cross-device fallback of "
         "shutil.move) are outside the model",
@@ -148,7 +203,17 @@ class C29(PropertyCheck):
 
     # ---- generation ---------------------------------------------------------------------------
     def gen_case(self, rng):
-        dnames, fnames, nnames = ["d0", "d1", "d2"], ["f0", "f1", "f2"], ["n0", "n1", "n2"]
+        if rng.random() < 0.3:
+            dnames, fnames, nnames = ["d0", "d1", "d2"], ["f0", "f1", "f2"], ["n0", "n1", "n2"]
+            self.count("names:disjoint-pools")
+        else:
+            # one or two families of prefix-/case-related names, shared by pre-existing and created paths
+            pool = [n for fam in rng.sample(FAMILIES, rng.choice([1, 1, 2])) for n in fam]
+            if rng.random() < 0.3:
+                pool.append(rng.choice(["d1", "f1", "n1"]))
+            dnames = fnames = nnames = pool
+            self.count("names:prefix-related-families")
+        allnames = sorted(set(dnames) | set(fnames) | set(nnames))
         init = [[[], "dir"]]
         dirs, files = [[]], []
 
@@ -224,7 +289,42 @@ class C29(PropertyCheck):
                 for q in [q for q in l if q[:len(p)] == p]:
                     l.remove(q)
 
-        ops = []
+        def respell(p):
+            """another spelling of the normal form p (segments below root), or None for the plain one"""
+            r = rng.random()
+            if r < 0.72:
+                return None
+            if r < 0.80:                                  # "." or an empty segment (doubled separator)
+                i = rng.randrange(len(p)) if p else 0
+                return p[:i] + [rng.choice([".", ""])] + p[i:] if p else None
+            if r < 0.93 and p:                            # a detour through a directory: x/sub/../y, x/../x/y
+                i = rng.randrange(len(p))
+                via = dirs + made_dirs if rng.random() < 0.2 else dirs     # mostly through pre-existing directories
+                subs = [d[-1] for d in via if len(d) == i + 1 and d[:i] == p[:i]]
+                if rng.random() < 0.25 and i >= 1 and (p[:i] in via or rng.random() < 0.05):
+                    return p[:i] + ["..", p[i - 1]] + p[i:]
+                if subs:
+                    return p[:i] + [rng.choice(subs), ".."] + p[i:]
+                return None
+            if p in dirs or (p in made_dirs and rng.random() < 0.5) or rng.random() < 0.02:  # trailing separator
+                return p + [""]
+            return None
+
+        def spell_op(op):
+            (_, v), = op.items()
+            e = {}
+            sp = respell(v["p"])
+            if sp is not None:
+                e["sp"] = sp
+            if "q" in v:
+                sq = respell(v["q"])
+                if sq is not None:
+                    e["sq"] = sq
+            if rng.random() < 0.15:
+                e["rel"] = True
+            return e
+
+        ops, spell = [], []
         for _ in range(rng.randrange(3, 13)):
             k = rng.random()
             if k < 0.17:
@@ -301,15 +401,37 @@ class C29(PropertyCheck):
                 if p in made_dirs:
                     note_gone(p)
             ops.append(op)
-        return {"init": init, "ops": ops}
+            spell.append(spell_op(op))
+        # probes for `_is_isolated`: every named path and its siblings by name
+        probes = {tuple(p) for p, _ in init}
+        for op in ops:
+            for p in op_paths(op):
+                probes.add(tuple(p))
+                for n in allnames:
+                    probes.add(tuple(p[:-1] + [n]))
+        probes = sorted(probes)
+        if len(probes) > 40:
+            probes = sorted(rng.sample(probes, 40))
+        return {"init": init, "ops": ops, "spell": spell, "probes": [list(p) for p in probes]}
 
     # ---- the real implementation --------------------------------------------------------------
     @staticmethod
-    def _do(op: dict, root: str) -> None:
+    def _do(op: dict, root: str, sp: dict | None = None) -> None:
         (k, v), = op.items()
+        sp = sp or {}
+        rel = bool(sp.get("rel"))
+        strings = {}
+        for f, sf in (("p", "sp"), ("q", "sq")):
+            if f in v:
+                s_ = spelled(root, v[f], sp.get(sf), rel)
+                want = os.path.join(root, *v[f]) if v[f] else root
+                # safety + well-formedness of the case: the spelling denotes the argument and stays in the sandbox
+                if os.path.normpath(os.path.join(root, s_)) != want or os.getcwd() != root:
+                    raise BadSpelling(f"spelling {s_!r} does not denote {want!r}")
+                strings[tuple(v[f])] = s_
 
         def P(c):
-            return os.path.join(root, *c) if c else root
+            return strings[tuple(c)]
 
         if k == "fopen":
             mode, d = MODES[v["mode"]], text(v["data"])
@@ -377,10 +499,20 @@ class C29(PropertyCheck):
             raise ValueError(f"unknown op {k}")
 
     def impl(self, case):
+        if "scenario" in case:             # replay of the private-tmp-dir scenario (see extra_checks)
+            return {"scenario": True}
         import pynguin.configuration as config
         from pynguin.utils.fs_isolation import FilesystemIsolation
 
         logging.getLogger("pynguin.utils.fs_isolation").setLevel(logging.CRITICAL)  # cleanup warnings → stderr
+        # `_abspath` memoises abspath(normpath(str)) per STRING in a process-wide lru_cache; a relative spelling
+        # is therefore resolved against the working directory of its FIRST use in the process.  Every case has
+        # its own sandbox (= working directory), an execution never changes it (assumption), so each case
+        # starts with an empty memo like a fresh process would (see design note, "Observation").
+        import pynguin.utils.fs_isolation as fsi
+        cache = getattr(fsi, "_normalize_path_cached", None)
+        if hasattr(cache, "cache_clear"):
+            cache.cache_clear()
         sandbox = os.path.realpath(tempfile.mkdtemp(prefix="verif-c29-"))
         root = os.path.join(sandbox, "root")
         old_flag = config.configuration.filesystem_isolation
@@ -404,12 +536,15 @@ class C29(PropertyCheck):
             try:
                 with FilesystemIsolation() as iso:
                     try:
-                        for op in case["ops"]:
+                        spell = case.get("spell") or [None] * len(case["ops"])
+                        for op, sp in zip(case["ops"], spell):
                             try:
-                                self._do(op, root)
+                                self._do(op, root, sp)
                                 res.append("ok")
                             except PermissionError as e:
                                 res.append("refused" if str(e).startswith("Attempted to") else "failed")
+                            except BadSpelling:
+                                raise
                             except Exception:  # noqa: BLE001
                                 res.append("failed")
                     finally:
@@ -424,6 +559,9 @@ class C29(PropertyCheck):
                         created.append([] if rel == "." else rel.split(os.sep))
                     out["created"] = sorted(created)
                     out["pre"] = snapshot(root)
+                    probe = getattr(iso, "_is_isolated", None)
+                    out["iso"] = ("absent" if probe is None else
+                                  [bool(probe(os.path.join(root, *p) if p else root)) for p in case.get("probes", [])])
             finally:
                 os.chdir(old_cwd)
             out["res"] = res
@@ -449,14 +587,25 @@ class C29(PropertyCheck):
         if "res" not in model_out:
             return False
         if "unmodelled" in model_out["res"]:
-            self.count("unmodelled:move-copytree-fallback")
+            # shutil.move fell back to copytree, or a spelling the operating system does not resolve like its
+            # normal form (a detour through a missing directory, `file/`): only the oracle judges the case
+            i = model_out["res"].index("unmodelled")
+            sp = (case.get("spell") or [{}] * len(case["ops"]))[i]
+            self.count("unmodelled:spelling-not-resolved-like-normal-form" if ("sp" in sp or "sq" in sp)
+                       and "move" not in case["ops"][i] else "unmodelled:move-copytree-fallback-or-spelling")
             return True
         return (impl_out["res"] == model_out["res"] and impl_out["created"] == model_out["created"]
+                and impl_out["iso"] == model_out.get("iso")
                 and impl_out["pre"] == model_out["pre"] and impl_out["post"] == model_out["post"]
                 and not impl_out["escaped"])
 
     # ---- the property itself ------------------------------------------------------------------
+    def model_line(self, case):
+        return None if "scenario" in case else jdump(case)
+
     def oracle(self, case, impl_out):
+        if "scenario" in case:
+            return self.extra_checks()
         before = {tuple(p): n for p, n in impl_out["before"]}
         after = {tuple(p): n for p, n in impl_out["post"]}
         fails = []
@@ -495,18 +644,124 @@ class C29(PropertyCheck):
         return fails
 
     def classify(self, case, impl_out):
+        if "scenario" in case:
+            return None
         before = {tuple(p) for p, _ in impl_out["before"]}
         key = []
-        for op, r in zip(case["ops"], impl_out["res"]):
+        spell = case.get("spell") or [{}] * len(case["ops"])
+        for op, r, sp in zip(case["ops"], impl_out["res"], spell):
             pre = [tuple(q) in before for q in op_paths(op)]
-            key.append([op_kind(op), r, pre])
+            kinds = sorted(set(spelling_kinds(sp.get("sp"), sp.get("rel")) + spelling_kinds(sp.get("sq"), False)))
+            key.append([op_kind(op), r, pre, kinds])
             self.count(f"op:{next(iter(op))}:{r}")
+            for kd in kinds:
+                self.count(f"spelling:{kd}:{r}")
             if any(pre):
                 self.count(f"names-preexisting:{r}")
+        # name relations between what was recorded and what existed before (the isolation must tell them apart)
+        rel = set()
+        for c in impl_out["created"]:
+            cs = "/" + "/".join(c)
+            for b in before:
+                bs = "/" + "/".join(b)
+                if b and tuple(c) != b[:len(c)] and bs.startswith(cs):
+                    rel.add("recorded-name-is-string-prefix-of-preexisting")
+                if b and tuple(c) != b and len(c) == len(b) and cs.lower() == bs.lower():
+                    rel.add("recorded-name-differs-in-case-from-preexisting")
+        for x in rel:
+            self.count(f"shape:{x}")
+        if impl_out.get("iso") and impl_out["iso"] != "absent":
+            self.count("probes:is_isolated", len(impl_out["iso"]))
+            self.count("probes:is_isolated-true", sum(1 for x in impl_out["iso"] if x))
         self.count(f"kind:len{min(len(case['ops']) // 4 * 4, 12)}")
         if not any(r == "ok" for r in impl_out["res"]):
             return None
         return jdump(key)
+
+    # ---- the isolation's own temporary directory and its name-prefixed siblings ------------------
+    def extra_checks(self):
+        """Outside the Lean model (which has no private tmp dir): pre-existing siblings of the isolation's own
+        TemporaryDirectory whose names merely EXTEND its name (`<tmp>bak`, `<tmp>.d/`) are pre-existing paths
+        like any other.  Oracle = the property: the sandbox without the tmp dir is the same before and after."""
+        import pynguin.configuration as config
+        from pynguin.utils.fs_isolation import FilesystemIsolation
+
+        fails = []
+        sandbox = os.path.realpath(tempfile.mkdtemp(prefix="verif-c29-tmp-"))
+        old_flag, old_tmp, old_cwd = config.configuration.filesystem_isolation, tempfile.tempdir, os.getcwd()
+        old_env = {k: os.environ.get(k) for k in ("TMP", "TEMP", "TMPDIR")}
+        try:
+            config.configuration.filesystem_isolation = True
+            tempfile.tempdir = sandbox            # the isolation's TemporaryDirectory is created in here
+            iso = FilesystemIsolation()
+            tempfile.tempdir = old_tmp
+            tmp = getattr(getattr(iso, "_tmp", None), "name", None)
+            if not tmp or os.path.dirname(tmp) != sandbox:
+                self.count("tmp-sibling:skipped")
+                return fails
+            sib_file, sib_dir = tmp + "bak", tmp + ".d"
+            with _OPEN(sib_file, "w", encoding="ascii") as f:
+                f.write("precious")
+            _MKDIR(sib_dir)
+            with _OPEN(os.path.join(sib_dir, "keep"), "w", encoding="ascii") as f:
+                f.write("keep")
+
+            def snap():
+                return [e for e in snapshot(sandbox) if e[0][:1] != [os.path.basename(tmp)]]
+
+            before = snap()
+            attempts = [
+                ("open-w", lambda: builtins.open(sib_file, "w").close()),
+                ("path-write_text", lambda: Path(sib_file).write_text("x")),
+                ("os.open-wronly-trunc", lambda: os.close(os.open(sib_file, os.O_WRONLY | os.O_TRUNC))),
+                ("makedirs-exist_ok", lambda: os.makedirs(sib_dir, exist_ok=True)),
+                ("open-a-inside-dir", lambda: builtins.open(os.path.join(sib_dir, "keep"), "a").close()),
+                ("copy-onto", lambda: shutil.copyfile(os.path.join(tmp, "mine"), sib_file)),
+                ("replace-onto", lambda: os.replace(os.path.join(tmp, "mine2"), sib_file)),
+            ]
+            done = []
+            with iso:
+                try:
+                    for nm in ("mine", "mine2"):
+                        with builtins.open(os.path.join(tmp, nm), "w") as f:
+                            f.write("scratch")
+                    for name, act in attempts:
+                        try:
+                            act()
+                            done.append(name)
+                        except Exception:  # noqa: BLE001
+                            pass
+                finally:
+                    for c in list(iso._created):
+                        if not c.startswith(sandbox + os.sep):
+                            iso._created.discard(c)
+            after = snap()
+            self.count("tmp-sibling:scenario")
+            if after != before:
+                b, a = {tuple(p): n for p, n in before}, {tuple(p): n for p, n in after}
+                for pth in sorted(set(b) | set(a)):
+                    if b.get(pth) != a.get(pth):
+                        cls = ("created-left-behind" if pth not in b else
+                               "preexisting-deleted" if pth not in a else "preexisting-modified")
+                        kind = "file" if len(pth) == 1 and pth[0].endswith("bak") else "dir"
+                        fails.append(Failure(
+                            {"class": cls, "via": f"sibling-of-private-tmp-dir:{kind}"},
+                            f"{cls}: {'/'.join(pth)} (a sibling of the isolation's private tmp dir {os.path.basename(tmp)} "
+                            f"whose name extends it) was {jdump(b.get(pth))} before and is {jdump(a.get(pth))} after; "
+                            f"operations that were let through: {done}",
+                            case={"scenario": "name-prefixed siblings of the private tmp dir", "let_through": done}))
+                        break
+        finally:
+            tempfile.tempdir = old_tmp
+            config.configuration.filesystem_isolation = old_flag
+            os.chdir(old_cwd)
+            for k, v in old_env.items():
+                if v is None:
+                    os.environ.pop(k, None)
+                else:
+                    os.environ[k] = v
+            _RMTREE(sandbox, ignore_errors=True)
+        return fails
 
     # ---- table check --------------------------------------------------------------------------
     def translate(self):
